@@ -269,10 +269,29 @@ CHECK_DEADLOCK FALSE
 """
 
 
+# schedule classes the shell leg must have exercised (observed, not assumed), else the run is vacuous
+SHELL_NEED = ["batch:held", "batch:new-then-established:ip", "batch:new-then-established:port", "batch:new-then-established:held",
+              "batch:both-directions", "batch:replies-to-several-clients", "c2b:delivered"]
+
+
+def shell_cfg(wd, name, devs):
+    props = ["S_C19_Sticky", "S_C19_Isolation", "S_C19_Integrity", "S_C19_Cap", "S_C19_Teardown"]
+    for d in devs:
+        if d in DEV_BREAKS:
+            broken, modulo, _ = DEV_BREAKS[d]
+            props = [modulo.replace("P_C19", "S_C19") if p == broken.replace("P_C19", "S_C19") else p for p in props]
+    cfg = os.path.join(wd, name)
+    with open(cfg, "w") as f:
+        f.write(SHELL_CFG % {"dev": tla_set(devs), "props": " ".join(props)})
+    return cfg
+
+
 def shell_run(wd, bins, devs, seed, runs, steps):
-    """A real sozu worker with a UDP listener; this process plays 3 clients and 2 backends in lock step
-    (cluster reconfiguration incl. affinity flips, cap changes, routing removal); who received what is
-    validated by TLC against Trace_UdpShell.tla. 'Nothing arrived' is only concluded after 2 s."""
+    """A real sozu worker with a UDP listener; this process plays 4 clients (3 source IPs) and 2 backends:
+    lock-step steps (cluster reconfiguration incl. affinity flips, cap changes, routing removal) and BATCHES
+    (several datagrams of several flows and backend replies of several flows queued on the worker's sockets
+    while it is held before poll, or as a burst). Who received what through which upstream socket, in which
+    order, is validated by TLC against Trace_UdpShell.tla. 'Nothing arrived' is only concluded after 2 s."""
     trace = os.path.join(wd, "shell.ndjson")
     out = vlib.run_harness(bins["shell_udp"], ["--seed", str(seed), "--runs", str(runs), "--steps", str(steps), "--quiet-ms", "2000",
                                                "--flips", "1", "--out", trace], timeout=1500)
@@ -280,23 +299,30 @@ def shell_run(wd, bins, devs, seed, runs, steps):
     if not summ:
         raise vlib.ToolError("shell_udp produced no summary")
     summ = summ[0]
-    props = ["S_C19_Sticky", "S_C19_Isolation", "S_C19_Integrity", "S_C19_Cap", "S_C19_Teardown"]
-    for d in devs:
-        broken, modulo, _ = DEV_BREAKS[d]
-        props = [modulo.replace("P_C19", "S_C19") if p == broken.replace("P_C19", "S_C19") else p for p in props]
-    cfg = os.path.join(wd, "shell.cfg")
-    with open(cfg, "w") as f:
-        f.write(SHELL_CFG % {"dev": tla_set(devs), "props": " ".join(props)})
+    cfg = shell_cfg(wd, "shell.cfg", devs)
     tr = vlib.tlc_trace("Trace_UdpShell", cfg, PID, trace, timeout=600)
     canary_problem = None
     if tr["accepted"]:
-        # canary: a datagram of an established flow observed at the other backend must be rejected
         lines = open(trace).read().splitlines()
+        missing = [c for c in SHELL_NEED if not summ["cover"].get(c)]
+        if missing and not summ["panics"]:
+            canary_problem = "vacuous shell leg: schedule classes never observed: %s" % missing
+        # self-test of the batch semantics: under the switch that models "the upstream socket of a datagram is
+        # resolved from per-pass state" the very same recorded run of a correct shell must be rejected, at a batch
+        st = vlib.tlc_trace("Trace_UdpShell", shell_cfg(wd, "shell_stale.cfg", devs + ["StaleInFlightUpstream"]), PID, trace, timeout=600)
+        if st["accepted"] or st["consumed"] is None or json.loads(lines[st["consumed"]])["ev"] != "batch":
+            canary_problem = canary_problem or ("shell self-test: the recorded run is not rejected at a batch under StaleInFlightUpstream "
+                                                "(accepted=%s consumed=%s)" % (st["accepted"], st["consumed"]))
+        else:
+            vlib.log("shell self-test: StaleInFlightUpstream refuted by the recorded run at event %d (a batch)" % st["consumed"])
+        # canary: a datagram of an established flow observed at the other backend must be rejected
         cands, seen = [], set()
         for i, l in enumerate(lines):
             ev = json.loads(l)
             if ev["ev"] == "reset":
                 seen = set()
+            elif ev["ev"] == "batch":
+                seen.update(o["up"] for q in ev["at"] for o in q)
             elif ev["ev"] == "c2b" and ev["obs"]["got"] == 1:
                 if ev["obs"]["up"] in seen:
                     cands.append(i)
@@ -311,7 +337,7 @@ def shell_run(wd, bins, devs, seed, runs, steps):
                 f.write("\n".join(lines) + "\n")
             cr = vlib.tlc_trace("Trace_UdpShell", cfg, PID, canary, timeout=600)
             if cr["accepted"] or cr["consumed"] != i:
-                canary_problem = "shell canary: a datagram moved to the other backend (event %d) was not rejected there (consumed %s)" % (i, cr["consumed"])
+                canary_problem = canary_problem or "shell canary: a datagram moved to the other backend (event %d) was not rejected there (consumed %s)" % (i, cr["consumed"])
     return {"out": out, "summ": summ, "tr": tr, "trace": trace, "canary_problem": canary_problem}
 
 
@@ -416,7 +442,8 @@ def record_trace_rejection(rep, tr, trace, tag):
         start -= 1
     bad = lines[consumed] if consumed < len(lines) else "(end of trace)"
     klass = ("shell:" if tag == "shell" else "trace:") + (tr["violated"] or "unexplained-event")
-    mism = [l for l in tr["out"].splitlines() if "MISMATCH" in l]
+    outl = tr["out"].splitlines()
+    mism = [" ".join(x.strip() for x in outl[j:j + (3 if "inside the batch" in l else 1)]) for j, l in enumerate(outl) if "MISMATCH" in l]
     rep.violation(klass, "event %d of the recorded run is not a step of the spec: %s %s" % (consumed - start, bad[:160], " ".join(mism)[:300]),
                   "\n".join(lines[start:consumed + 1]) + "\n", name="%s_rejected.ndjson" % tag)
 
